@@ -102,6 +102,8 @@ class BaseTimeSeries(BaseEstimator):
             xyw = self.preprocessing_.transform(X, y, sample_weight)
             X, y = xyw[:2]
             sample_weight = xyw[-1] if sample_weight is not None else None
+        else:
+            self.preprocessing_ = None
         return X, y, sample_weight
 
     def _base_fit_predict(self, X, y, sample_weight=None):
